@@ -82,6 +82,17 @@ def make_world(root, seed, encoding='csr', with_extras=True, **kw):
         dst.create_dataset('indptr', data=X.indptr.astype(np.int64))
         dst.create_dataset('data', data=X.data.astype(np.float32))
     world.tr_shape = tuple(int(x) for x in X.shape)
+    # query-marker cache, as _run_mapping builds it, for direct calls of the election
+    from cell_type_mapper.type_assignment.marker_cache_v2 import (
+        create_marker_cache_from_specified_markers)
+    world.marker_cache_path = str(wdir / 'query_marker_cache.h5')
+    with fx.quiet():
+        create_marker_cache_from_specified_markers(
+            marker_lookup=dict(world.marker_lookup),
+            reference_gene_names=list(world.reference_gene_names),
+            query_gene_names=list(world.query_gene_names),
+            output_cache_path=world.marker_cache_path, log=None, taxonomy_tree=tree_of(world),
+            min_markers=1)
     return world
 
 
@@ -188,6 +199,37 @@ def _run_mapping_stage(world, out, scratch, nproc, **kw):
             'hdf5': cfg['hdf5_result_path'], 'log': cfg['log_path']}
 
 
+def run_election_direct(world, nproc, scratch, results_output_path=None, chunk_size=7, rng_seed=77,
+                        bootstrap_iteration=10):
+    """election_runner.run_type_assignment_on_h5ad as _run_mapping calls it; with
+    results_output_path=None the workers append to a Manager list in completion order"""
+    from cell_type_mapper.type_assignment.election_runner import run_type_assignment_on_h5ad
+    tree = tree_of(world)
+    lookup = {lv: 0.6 for lv in tree.hierarchy[:-1]}
+    lookup['None'] = 0.6
+    return run_type_assignment_on_h5ad(
+        query_h5ad_path=world.query_path, precomputed_stats_path=world.precomputed_path,
+        marker_gene_cache_path=world.marker_cache_path, taxonomy_tree=tree, n_processors=nproc,
+        chunk_size=chunk_size, bootstrap_factor_lookup=lookup,
+        bootstrap_iteration=bootstrap_iteration, rng=np.random.default_rng(rng_seed),
+        n_assignments=4, normalization='raw', tmp_dir=scratch, log=None, max_gb=1,
+        results_output_path=results_output_path)
+
+
+def _run_election(world, out, scratch, nproc, **kw):
+    result = run_election_direct(world, nproc, scratch, results_output_path=None)
+    path = os.path.join(out, 'assignments.json')
+    with open(path, 'w') as dst:
+        json.dump(result, dst, default=str)
+    return {'assignments': path}
+
+
+def _accept_assignments(path, world):
+    if not os.path.exists(path):
+        return False, 'absent'
+    return True, 'assignments were returned to the caller'
+
+
 # -- "would the next stage take this file as complete?" ------------------------------------------
 
 def _accept_stats(path, world):
@@ -271,57 +313,64 @@ STAGES = {
     'mapping': dict(
         function=M + 'cli.from_specified_markers.run_mapping',
         inner=M + 'type_assignment.election.run_type_assignment_on_h5ad_cpu',
-        run=_run_mapping_stage, nproc=3, n_workers=3,
+        run=_run_mapping_stage, nproc=3, nprocs=(3, 2),
         sites=[(M + 'type_assignment.election', '_run_type_assignment_on_h5ad_worker')],
         mid=[(M + 'type_assignment.election', '_run_type_assignment', 2, 'after'),
              (M + 'type_assignment.election', 'save_results', 1, 'partial-write')],
         accept=None),
+    'election': dict(                     # shared Manager list instead of per-chunk files
+        function=M + 'type_assignment.election.run_type_assignment_on_h5ad_cpu',
+        run=_run_election, nproc=3, nprocs=(3, 2),
+        sites=[(M + 'type_assignment.election', '_run_type_assignment_on_h5ad_worker')],
+        mid=[(M + 'type_assignment.election', '_run_type_assignment', 2, 'after'),
+             (M + 'type_assignment.election', 'run_type_assignment', 1, 'after')],
+        accept=('assignments', _accept_assignments)),
     'stats': dict(
         function=M + 'diff_exp.precompute_from_anndata.precompute_summary_stats_from_h5ad',
-        run=_run_stats, nproc=3, n_workers=3,
+        run=_run_stats, nproc=3, nprocs=(3, 2),
         sites=[(M + 'diff_exp.precompute_from_anndata', '_process_chunk_spec')],
         mid=[(M + 'diff_exp.precompute_from_anndata', '_process_chunk', 1, 'after')],
         accept=('stats', _accept_stats)),
     'markers': dict(
         function=M + 'diff_exp.markers.find_markers_for_all_taxonomy_pairs',
-        run=_run_markers, nproc=2, n_workers=2,
+        run=_run_markers, nproc=2, nprocs=(2, 1),
         sites=[(M + 'diff_exp.markers', '_find_markers_worker')],
         mid=[(M + 'diff_exp.markers', 'score_differential_genes', 2, 'after'),
              (M + 'diff_exp.markers', '_write_to_tmp_file', 1, 'after')],
         accept=('markers', _accept_markers)),
     'markers/transposition': dict(       # the transposition workers inside the marker stage
         function=M + 'diff_exp.markers.find_markers_for_all_taxonomy_pairs',
-        run=_run_markers, nproc=2, n_workers=4,
+        run=_run_markers, nproc=2, nprocs=(2,),
         sites=[(M + 'utils.csc_to_csr_parallel', '_transpose_subset_of_indices')],
         mid=[(M + 'utils.csc_to_csr_parallel', 'transpose_sparse_matrix_on_disk', 1, 'after')],
         accept=('markers', _accept_markers)),
     'pmask': dict(
         function=M + 'diff_exp.p_value_mask.create_p_value_mask_file',
-        run=_run_pmask, nproc=2, n_workers=2,
+        run=_run_pmask, nproc=2, nprocs=(2, 1),
         sites=[(M + 'diff_exp.p_value_mask', '_p_values_worker')],
         mid=[(M + 'diff_exp.p_value_mask', 'diffexp_p_values_from_stats', 2, 'after')],
         accept=('pmask', _accept_pmask)),
     'pmarkers': dict(
         function=M + 'diff_exp.p_value_markers.find_markers_for_all_taxonomy_pairs_from_p_mask',
-        run=_run_pmarkers, nproc=2, n_workers=2,
+        run=_run_pmarkers, nproc=2, nprocs=(2, 1),
         sites=[(M + 'diff_exp.p_value_markers', '_find_markers_from_p_mask_worker')],
         mid=[(M + 'diff_exp.p_value_markers', '_get_validity_mask', 2, 'after'),
              (M + 'diff_exp.p_value_markers', '_write_to_tmp_file', 1, 'after')],
         accept=('markers', _accept_markers)),
     'selection': dict(
         function=M + 'marker_selection.selection_pipeline.select_all_markers',
-        run=_run_selection, nproc=2, n_workers=4,
+        run=_run_selection, nproc=2, nprocs=(2, 3),
         sites=[(M + 'marker_selection.selection_pipeline', '_marker_selection_worker')],
         mid=[(M + 'marker_selection.selection_pipeline', 'select_marker_genes_v2', 1, 'after')],
         accept=('lookup', _accept_lookup)),
     'transposition': dict(
         function=M + 'utils.csc_to_csr_parallel.transpose_sparse_matrix_on_disk_v2',
-        run=_run_transpose, nproc=3, n_workers=3,
+        run=_run_transpose, nproc=3, nprocs=(3, 2),
         sites=[(M + 'utils.csc_to_csr_parallel', '_transpose_subset_of_indices')],
         mid=[(M + 'utils.csc_to_csr_parallel', 'transpose_sparse_matrix_on_disk', 1, 'after')],
         accept=('transposed', _accept_transposed)),
 }
-STAGE_ORDER = ['mapping', 'stats', 'markers', 'markers/transposition', 'pmask', 'pmarkers',
+STAGE_ORDER = ['mapping', 'election', 'stats', 'markers', 'markers/transposition', 'pmask', 'pmarkers',
                'selection', 'transposition']
 
 
@@ -400,6 +449,12 @@ class _WrappedTarget(object):
         self.real(*a, **kw)
         if mine and fault['point'] == 'after':
             _trigger(fault['mode'], plan.get('marker'))
+        if plan.get('trace_dir'):
+            try:
+                with open(os.path.join(plan['trace_dir'], f'{self.k}.done'), 'w') as f:
+                    f.write(repr(time.time()))
+            except OSError:
+                pass
         d = plan.get('delay_after', {}).get(self.k)
         if d:
             time.sleep(d)
@@ -583,15 +638,140 @@ def fresh_dirs(base, tag):
 
 
 # ------------------------------------------------------------------------------------------------
+# comparison of stage outputs (c04, c19)
+# ------------------------------------------------------------------------------------------------
+
+def _as_data(raw):
+    """bytes / str dataset -> parsed JSON when it is JSON, else the string"""
+    if isinstance(raw, (bytes, np.bytes_)):
+        raw = raw.decode('utf-8', errors='replace')
+    if isinstance(raw, str):
+        try:
+            return json.loads(raw)
+        except ValueError:
+            return raw
+    return raw
+
+
+def h5_diff(path_a, path_b, ignore=(), float_rtol=None, dtype_notes=None):
+    """first difference between two HDF5 files: same groups / datasets, equal shapes, dtypes and
+    values (byte strings compared as JSON data when they are JSON).  None when equal.
+    float_rtol: compare floating point datasets to this relative tolerance instead of exactly.
+    dtype_notes: when a list, a dtype difference is appended to it and the values are still compared
+    (as numbers) instead of being returned as the difference."""
+    import h5py
+
+    def walk(g, prefix=''):
+        out = {}
+        for k in g.keys():
+            name = prefix + k
+            if isinstance(g[k], h5py.Group):
+                out.update(walk(g[k], name + '/'))
+            else:
+                out[name] = g[k]
+        return out
+    with h5py.File(path_a, 'r') as fa, h5py.File(path_b, 'r') as fb:
+        da, db = walk(fa), walk(fb)
+        ka = {k for k in da if k not in ignore}
+        kb = {k for k in db if k not in ignore}
+        if ka != kb:
+            return f'datasets differ: only in first {sorted(ka - kb)}, only in second {sorted(kb - ka)}'
+        for k in sorted(ka):
+            a, b = da[k][()], db[k][()]
+            if isinstance(a, (bytes, np.bytes_, str)) or isinstance(b, (bytes, np.bytes_, str)):
+                if _as_data(a) != _as_data(b):
+                    return f'{k}: string / JSON content differs'
+                continue
+            a, b = np.asarray(a), np.asarray(b)
+            if a.shape != b.shape:
+                return f'{k}: shape {a.shape} != {b.shape}'
+            if a.dtype != b.dtype:
+                if dtype_notes is None:
+                    return f'{k}: dtype {a.dtype} != {b.dtype}'
+                dtype_notes.append(f'{k}: dtype {a.dtype} != {b.dtype}')
+            if a.dtype.kind in 'SOU':
+                if not np.array_equal(a, b):
+                    return f'{k}: values differ'
+                continue
+            if float_rtol is not None and a.dtype.kind == 'f':
+                if not np.allclose(a, b, rtol=float_rtol, atol=0.0, equal_nan=True):
+                    return f'{k}: max abs difference {np.nanmax(np.abs(a - b))!r} beyond rtol {float_rtol}'
+                continue
+            if not np.array_equal(a, b, equal_nan=(a.dtype.kind == 'f')):
+                bad = np.argwhere(np.atleast_1d(a != b))
+                where = bad[0].tolist() if len(bad) else '?'
+                return (f'{k}: values differ at {where}: {np.atleast_1d(a)[tuple(bad[0])]!r} vs '
+                        f'{np.atleast_1d(b)[tuple(bad[0])]!r}' if len(bad) else f'{k}: values differ')
+    return None
+
+
+def json_file_diff(path_a, path_b, keys=None, drop=('metadata', 'log', 'config')):
+    """first difference between two JSON files compared as data (dict key order is irrelevant)"""
+    with open(path_a) as f:
+        a = json.load(f)
+    with open(path_b) as f:
+        b = json.load(f)
+    if isinstance(a, dict) and isinstance(b, dict):
+        ka = [k for k in a if k not in drop and (keys is None or k in keys)]
+        kb = [k for k in b if k not in drop and (keys is None or k in keys)]
+        if sorted(ka) != sorted(kb):
+            return f'keys {sorted(ka)} != {sorted(kb)}'
+        for k in sorted(ka):
+            if a[k] != b[k]:
+                return f'{k!r} differs: ' + (fx.record_diff(a[k], b[k], tol=0) or 'unequal')
+        return None
+    return None if a == b else 'content differs'
+
+
+def csv_diff(path_a, path_b):
+    def body(p):
+        with open(p) as f:
+            return [ln for ln in f.read().splitlines() if not ln.startswith('#')]
+    a, b = body(path_a), body(path_b)
+    if a == b:
+        return None
+    for i, (x, y) in enumerate(zip(a, b)):
+        if x != y:
+            return f'line {i}: {x!r} != {y!r}'
+    return f'{len(a)} lines != {len(b)} lines'
+
+
+def outputs_diff(stage, out_a, out_b, float_rtol=None, dtype_notes=None):
+    """first difference between the outputs two runs of `stage` left in directories out_a, out_b"""
+    names = sorted(set(os.listdir(out_a)) | set(os.listdir(out_b)))
+    for n in names:
+        pa, pb = os.path.join(out_a, n), os.path.join(out_b, n)
+        if os.path.isdir(pa) or os.path.isdir(pb):
+            continue
+        if not (os.path.exists(pa) and os.path.exists(pb)):
+            return f'{n}: present in one run only'
+        if n == 'log.txt':
+            continue
+        if n.endswith('.h5'):
+            ignore = ('metadata',) if stage in ('mapping',) else ()
+            d = h5_diff(pa, pb, ignore=ignore, float_rtol=float_rtol, dtype_notes=dtype_notes)
+        elif n.endswith('.json'):
+            d = json_file_diff(pa, pb)
+        elif n.endswith('.csv'):
+            d = csv_diff(pa, pb)
+        else:
+            d = None if sha256(pa) == sha256(pb) else 'bytes differ'
+        if d:
+            return f'{n}: {d}'
+    return None
+
+
+# ------------------------------------------------------------------------------------------------
 # one C14 case (runs inside the isolated process)
 # ------------------------------------------------------------------------------------------------
 
-def stage_case(world, stage, base, fault=None, mid_index=0):
+def stage_case(world, stage, base, fault=None, mid_index=0, nproc=None):
     """run `stage` with (or without) one injected fault; returns the observations"""
     st = STAGES[stage]
+    nproc = nproc or st['nproc']
     out, scratch = fresh_dirs(base, stage.replace('/', '-'))
     marker = os.path.join(os.path.dirname(out), 'fault_fired')
-    obs = dict(stage=stage, fault=fault, raised=None, outputs={}, out_dir=out)
+    obs = dict(stage=stage, fault=fault, raised=None, outputs={}, out_dir=out, nproc=nproc)
     if fault is None:
         plan = dict(sites=list(st['sites']), fault=None)
     else:
@@ -601,25 +781,24 @@ def stage_case(world, stage, base, fault=None, mid_index=0):
     with injected(plan):
         try:
             with fx.quiet():
-                outputs = st['run'](world, out, scratch, st['nproc'])
+                outputs = st['run'](world, out, scratch, nproc)
             obs['raised'] = None
         except Exception as e:   # noqa   what the property asks for
             obs['raised'] = f'{type(e).__name__}: {str(e)[:200]}'
     obs['dispatched'] = len(plan.get('dispatched', []))
     obs['fired'] = os.path.exists(marker)
     obs['out_listing'] = tree_listing(out)
+    obs['scratch_listing'] = tree_listing(scratch)
     if stage == 'mapping':
         obs.update(_observe_mapping(out))
     else:
         key, accept = st['accept']
-        expected = {'stats': 'precomputed_stats.h5', 'markers': None, 'pmask': 'p_value_mask.h5',
-                    'lookup': 'query_markers.json', 'transposed': 'transposed.h5'}
-        # the requested output location: the only file the stage may create in `out`
-        cands = [os.path.join(out, n) for n in os.listdir(out)]
+        # the requested output location is the only file the stage may create in `out`; whatever
+        # is found there is shown to the reader of the next stage
         acc = []
-        for pth in cands:
-            ok, why = accept(pth, world)
-            acc.append((os.path.basename(pth), ok, why))
+        for n in sorted(os.listdir(out)):
+            ok, why = accept(os.path.join(out, n), world)
+            acc.append((n, ok, why))
         obs['accepted'] = acc
         if outputs is not None:
             obs['outputs'] = outputs
@@ -670,12 +849,14 @@ CL_HDF5 = "mapping: the HDF5 output holds only metadata"
 CL_OUTPUT = "no file at the requested output location that the next stage accepts as complete"
 
 
-def judge(row, stage, fault, mid_index, status, obs):
+def judge(row, stage, nproc, fault, mid_index, status, obs):
     """turn the observations of one faulty case into failures of `row`"""
-    replay = dict(stage=stage, entry=STAGES[stage]['function'], worker_site=STAGES[stage]['sites'],
-                  fault=fault, mid=(STAGES[stage]['mid'][mid_index % len(STAGES[stage]['mid'])]
-                                    if fault and fault['point'] == 'mid' else None),
-                  n_processors=STAGES[stage]['nproc'], world='bounded.c14.make_world(seed)')
+    st = STAGES[stage]
+    replay = dict(stage=stage, entry=st['function'], worker_site=st['sites'], fault=fault,
+                  mid=(st['mid'][mid_index % len(st['mid'])]
+                       if fault and fault['point'] == 'mid' else None),
+                  n_processors=nproc, world='bounded.c14.make_world(root, seed)',
+                  replay='bounded.c14.stage_case(world, stage, base, fault, mid_index, nproc)')
     if status == 'hang':
         fx.add_failure(row, CL_RAISES, 'hang', replay, f'no return within {obs} s')
         return
@@ -683,16 +864,18 @@ def judge(row, stage, fault, mid_index, status, obs):
         fx.add_error(row, f'{stage} {fault}: {status}: {obs}')
         return
     if not obs['fired']:
-        fx.add_error(row, f'{stage} {fault}: the fault was not delivered (dispatched='
+        fx.add_error(row, f'{stage} nproc={nproc} {fault}: the fault was not delivered (dispatched='
                           f'{obs["dispatched"]}, raised={obs["raised"]})')
         return
     row['accepted'] += 1
-    fx.note_case(row, (stage, fault['k'], fault['mode'], fault['point'], mid_index), replay)
+    fx.note_case(row, (stage, nproc, fault['k'], fault['mode'], fault['point'], mid_index), replay)
     if obs['raised'] is None:
         fx.add_failure(row, CL_RAISES, 'no-exception', replay, 'the call returned normally')
     if stage == 'mapping':
         if not obs['json_exists'] or not isinstance(obs['json_keys'], list):
-            fx.add_failure(row, CL_LOG, 'json-missing', replay, f"json: {obs['json_keys']}")
+            fx.add_failure(row, CL_LOG, 'json-missing', replay,
+                           f"result.json: {obs['json_keys']}; log.txt written: {obs['log_exists']}; "
+                           f"the call raised: {obs['raised']}")
         elif 'results' in obs['json_keys']:
             fx.add_failure(row, CL_JSON, 'results-present', replay,
                            f"keys={obs['json_keys']} n_results={obs.get('n_results')}")
@@ -713,30 +896,33 @@ def judge(row, stage, fault, mid_index, status, obs):
                                f'{name}: {why}; call raised: {obs["raised"]}')
 
 
-def _case_entry(world, stage, base, fault, mid_index):
-    return stage_case(world, stage, base, fault=fault, mid_index=mid_index)
+def _case_entry(world, stage, base, fault, mid_index, nproc):
+    return stage_case(world, stage, base, fault=fault, mid_index=mid_index, nproc=nproc)
 
 
-def enumerate_cases(tier, seed):
+def enumerate_cases(tier, seed, n_workers):
+    """n_workers: {(stage, nproc): number of workers dispatched in the fault-free run}"""
     rng = np.random.default_rng([int(seed), 14])
     cases = []
     for stage in STAGE_ORDER:
         st = STAGES[stage]
-        nw = st['n_workers']
+        variants = [np_ for np_ in st['nprocs'] if (stage, np_) in n_workers]
+        if not variants:
+            continue
         if tier == 'thorough':
-            ks = range(nw) if stage != 'markers/transposition' else (0, nw - 1)
-            for k, mode, point in itertools.product(ks, MODES, POINTS):
-                mids = range(len(st['mid'])) if point == 'mid' else (0,)
-                for mi in mids:
-                    cases.append((stage, dict(k=int(k), mode=mode, point=point), mi))
+            for np_ in variants:
+                nw = n_workers[(stage, np_)]
+                for k, mode, point in itertools.product(range(nw), MODES, POINTS):
+                    mids = range(len(st['mid'])) if point == 'mid' else (0,)
+                    for mi in mids:
+                        cases.append((stage, np_, dict(k=int(k), mode=mode, point=point), mi))
         else:
-            # every stage x every mode and every stage x every crash point; worker index sampled
-            shift = int(rng.integers(0, 3))
-            for i, mode in enumerate(MODES):
-                point = POINTS[(i + shift) % 3]
-                k = int(rng.integers(0, nw))
-                mi = int(rng.integers(0, len(st['mid'])))
-                cases.append((stage, dict(k=k, mode=mode, point=point), mi if point == 'mid' else 0))
+            # every stage x every (mode, crash point); worker index, variant, mid hook sampled
+            for mode, point in itertools.product(MODES, POINTS):
+                np_ = variants[int(rng.integers(0, len(variants)))]
+                k = int(rng.integers(0, n_workers[(stage, np_)]))
+                mi = int(rng.integers(0, len(st['mid']))) if point == 'mid' else 0
+                cases.append((stage, np_, dict(k=k, mode=mode, point=point), mi))
     return cases
 
 
@@ -748,10 +934,11 @@ def run(tier='quick', seed=0, jobs=None):
         st = STAGES[stage]
         clauses = [CL_RAISES] + ([CL_JSON, CL_CSV, CL_SUCCESS, CL_LOG, CL_HDF5] if stage == 'mapping'
                                  else [CL_OUTPUT])
-        bound = (f"tiny world (6 leaves, 30 genes, 36 reference / 20 query cells), n_processors="
-                 f"{st['nproc']}, workers {st['sites'][0][1]} k<{st['n_workers']} x "
+        bound = (f"tiny world (6 leaves, 30 genes, 36 reference / 20 query cells), n_processors in "
+                 f"{list(st['nprocs'])}, every dispatched {st['sites'][0][1]} x "
                  f"{{raise, exit 3, SIGKILL}} x {{before, mid, after}}"
-                 + (" (all)" if tier == 'thorough' else " (seeded sample: every mode, every point)"))
+                 + (" (all)" if tier == 'thorough'
+                    else " (all 9 mode x point pairs; worker index and n_processors seeded)"))
         rows[stage] = fx.new_row(st['function'] + (' [transposition workers]'
                                                    if stage == 'markers/transposition' else ''),
                                  'small-scope-exhaustive' if tier == 'thorough' else 'seeded-random',
@@ -769,23 +956,25 @@ def run(tier='quick', seed=0, jobs=None):
             return [fx.finish_row(r) for r in rows.values()]
         base = os.path.join(root, 'cases')
         os.makedirs(base)
-        # baselines: without a fault every stage returns and its output is accepted (the acceptors
-        # and the shim are not what makes the faulty cases fail)
-        kws = [dict(world=world, stage=s, base=base, fault=None, mid_index=0) for s in STAGE_ORDER]
+        # baselines: without a fault every stage returns and its output is accepted (so neither the
+        # acceptors nor the shim are what makes the faulty cases fail); they also tell how many
+        # workers each (stage, n_processors) dispatches
+        variants = [(s, np_) for s in STAGE_ORDER for np_ in STAGES[s]['nprocs']]
+        kws = [dict(world=world, stage=s, base=base, fault=None, mid_index=0, nproc=np_)
+               for s, np_ in variants]
         res = run_isolated_many(_case_entry, kws, jobs=jobs, timeout=120, workdir=root)
-        usable = set()
-        for stage, (status, obs) in zip(STAGE_ORDER, res):
+        n_workers = {}
+        for (stage, np_), (status, obs) in zip(variants, res):
             row = rows[stage]
             if status != 'ok':
-                fx.add_error(row, f'baseline (no fault) {status}: {obs}')
+                fx.add_error(row, f'baseline (no fault, n_processors={np_}) {status}: {obs}')
                 continue
             if obs['raised'] is not None:
-                fx.add_error(row, f'baseline (no fault) raised: {obs["raised"]} -- the stage cannot '
-                                  'be exercised on this world')
+                fx.add_error(row, f'baseline (no fault, n_processors={np_}) raised: {obs["raised"]}'
+                                  ' -- the stage cannot be exercised on this world')
                 continue
-            if obs['dispatched'] != STAGES[stage]['n_workers']:
-                fx.add_error(row, f"baseline dispatched {obs['dispatched']} workers, expected "
-                                  f"{STAGES[stage]['n_workers']}")
+            if obs['dispatched'] < 1:
+                fx.add_error(row, f'baseline n_processors={np_}: no worker was dispatched')
                 continue
             if stage == 'mapping':
                 good = (isinstance(obs['json_keys'], list) and 'results' in obs['json_keys']
@@ -795,23 +984,27 @@ def run(tier='quick', seed=0, jobs=None):
             if not good:
                 fx.add_error(row, f'baseline output not accepted: {obs.get("accepted") or obs}')
                 continue
-            usable.add(stage)
-        cases = [c for c in enumerate_cases(tier, seed) if c[0] in usable]
+            n_workers[(stage, np_)] = obs['dispatched']
+        for stage in STAGE_ORDER:
+            rows[stage]['bound'] += '; workers per n_processors: ' + json.dumps(
+                {str(np_): n for (s, np_), n in n_workers.items() if s == stage})
+        cases = enumerate_cases(tier, seed, n_workers)
         budget = 50 if tier == 'quick' else 440
-        kws = [dict(world=world, stage=s, base=base, fault=f, mid_index=mi) for s, f, mi in cases]
+        kws = [dict(world=world, stage=s, base=base, fault=f, mid_index=mi, nproc=np_)
+               for s, np_, f, mi in cases]
         # run in slices so that the wall budget can stop the enumeration cleanly
         done = 0
         step = max(jobs * 4, 8)
         while done < len(kws):
             if time.time() - t_start > budget:
-                for s, f, mi in cases[done:]:
+                for s, np_, f, mi in cases[done:]:
                     rows[s]['_skipped'] = rows[s].get('_skipped', 0) + 1
                 break
             part = run_isolated_many(_case_entry, kws[done:done + step], jobs=jobs, timeout=60,
                                      workdir=root)
-            for (s, f, mi), (status, obs) in zip(cases[done:done + step], part):
+            for (s, np_, f, mi), (status, obs) in zip(cases[done:done + step], part):
                 rows[s]['cases'] += 1
-                judge(rows[s], s, f, mi, status, obs)
+                judge(rows[s], s, np_, f, mi, status, obs)
             done += step
             shutil.rmtree(base, ignore_errors=True)
             os.makedirs(base, exist_ok=True)
@@ -828,11 +1021,17 @@ def run(tier='quick', seed=0, jobs=None):
     return out
 
 
-if __name__ == '__main__':
+def _main(mod_run):
     tier = sys.argv[1] if len(sys.argv) > 1 else 'quick'
     t0 = time.time()
-    rr = run(tier, int(os.environ.get('VERIF_SEED', '0') or 0), 2)
+    rr = mod_run(tier, int(os.environ.get('VERIF_SEED', '0') or 0), 2)
     for r in rr:
-        print(json.dumps({k: r[k] for k in ('function', 'cases', 'accepted', 'distinct', 'failures',
-                                            'error')}, default=str)[:3000])
-    print('wall', round(time.time() - t0, 1))
+        print(json.dumps({k: r.get(k) for k in ('function', 'form', 'cases', 'accepted', 'distinct',
+                                                'failures', 'error')}, default=str)[:4000])
+    print('rows', len(rr), 'cases', sum(r['cases'] for r in rr), 'failures',
+          sum(len(r['failures']) for r in rr), 'errors', sum(1 for r in rr if r.get('error')),
+          'wall', round(time.time() - t0, 1))
+
+
+if __name__ == '__main__':
+    _main(run)
